@@ -46,9 +46,10 @@ var names = []string{"x", "x2", "id", "idx", "y", "n"}
 var litChunks = []string{
 	"/", "/a", "/b", "/ab", "/a/", "a", "b", "aa", "c", "/c", "-", ".", ".html", "/1", "1",
 	"d", "/d", "e", "/e", "f", "/f", "g", "/g", "/中", "/a/b", "//", "/-",
+	"/你", "中", "你", // 中 and 你 share their first byte (E4): literal text that diverges inside a character
 }
 
-var burstBytes = []string{"a", "b", "c", "d", "e", "f", "g", "1", "-", "."}
+var burstBytes = []string{"a", "b", "c", "d", "e", "f", "g", "1", "-", ".", "中", "你"}
 
 // regexp rules: one character class under a quantifier, no braces.
 var rulesWitness = []string{`\d+`, `\w+`, `[^/]+`, `[x-z7-9]+`, `\d*`}
@@ -177,6 +178,8 @@ func (b *builder) addParam(t *rapid.T) {
 	tok += name
 	if rule != "" {
 		tok += ":" + rule
+	} else if rapid.IntRange(0, 9).Draw(t, "emptyRule") == 0 {
+		tok += ":" // {name:} - the other spelling of a parameter without a rule
 	}
 	tok += "}"
 	b.sb.WriteString(tok)
